@@ -131,11 +131,14 @@ def projects(draw, max_steps=9, allow_always=True):
             if draw(st.integers(0, 3)) == 0:
                 step['outs'] = ['gen/' + o for o in step['outs']]
             step['files'] = pick(file_refs('cdhb'), 0, 3)
-            step['always'] = allow_always and draw(st.integers(0, 7)) == 0
+            step['always'] = allow_always and draw(st.integers(
+                0, 7 if nout == 1 else 3)) == 0
         elif kind == 'copy':
             cands = file_refs('d') or file_refs('h') or file_refs('c')
             step['files'] = pick(cands, 1, 1)
             step['name'] = 'copied/c{}.dat'.format(sid)
+            step['mode'] = draw(st.sampled_from(
+                ['copy', 'copy', 'symlink', 'hardlink']))
         elif kind == 'alias':
             step['extra'] = pick([r for r in file_refs('bdop')
                                   if r[0] == 'out'], 0, 3)
@@ -299,7 +302,11 @@ def reference_graph(model):
             g.append({'key': 'out:' + st_['name'], 'sid': st_['id'],
                       'inputs': {ref_file(model, st_['files'][0])} | extra,
                       'outputs': [B + st_['name']], 'phony': False,
-                      'always': False, 'runs': True})
+                      'always': False, 'runs': True,
+                      # a link has the time stamp of the file it points to:
+                      # it need not be re-made when that file changes, yet
+                      # its consumers see the change
+                      'transparent': st_.get('mode', 'copy') != 'copy'})
         elif kind == 'alias':
             g.append({'key': 'ALIAS:' + st_['name'], 'sid': st_['id'],
                       'inputs': extra, 'outputs': ['P:' + st_['name']],
@@ -379,6 +386,11 @@ def dirty_after_touch(need, touched, may=False):
                 continue
             ins = m['inputs'] | (m.get('optional', set()) if may else set())
             if m['always'] or (ins & changed):
+                if m.get('transparent') and not may and not m['always']:
+                    if not set(m['outputs']) <= changed:
+                        changed.update(m['outputs'])
+                        progress = True
+                    continue
                 dirty.add(m['key'])
                 changed.update(m['outputs'])
                 progress = True
@@ -463,6 +475,8 @@ def script(model):
                 v, outs, cmd, files, extra,
                 ', always_outdated=True' if st_['always'] else ''))
         elif kind == 'copy':
+            if st_.get('mode', 'copy') != 'copy':
+                extra += ', mode={!r}'.format(st_['mode'])
             L.append('{} = copy_file({!r}, {}{})'.format(
                 v, st_['name'], _ref_expr(model, st_['files'][0]), extra))
         elif kind == 'alias':
@@ -530,6 +544,7 @@ def canonical(model):
         out.append([st_['kind'], len(st_['files']), len(st_['libs']),
                     len(st_['extra']), len(st_['outs']), st_['always'],
                     len(st_.get('hdrs', [])), bool(st_.get('pchname')),
+                    st_.get('mode'),
                     sorted(r[0] if r[0] == 'src' else
                            'k' + str(step_by_id(model)[r[1]]['kind'])
                            for r in st_['files'] + st_['extra'])])
